@@ -16,8 +16,9 @@ RULE = ("histories of 1-4 composition calls on a random parent (<= 9 nodes, some
         "outcome); non-trivial = an accepted call that attaches at least one net or fills/strips a blackbox; distinct = canonical case hash")
 EXPLANATION = ("add_subcircuit specification proved over the API model (structure, registry, consistent-valuation characterisation); model tied to the "
                "class by correspondence per step; the property's clauses are decided on every recorded result by exhaustive evaluation")
-SHARD = 12
-HASHSEEDS = {"quick": [0, 1], "thorough": [0, 1, 2, 3]}
+SHARD = 6
+MAX_FREE = 9          # exhaustive sweeps: histories whose result has more free nodes are not evaluated (counted in the evidence)
+HASHSEEDS = {"quick": [0, 1], "thorough": [0, 1, 2]}
 
 
 # ---------------------------------------------------------------- generator
@@ -139,6 +140,11 @@ def scen_strip(rng):
         p = lib.add_flop(rng, p, inst="ff1", clk="clk")
     ign = rng.choice([None, None, "clk", ["clk"], ["q"], ["d", "clk"], "", []])
     ops = [{"op": "strip", "ign": ign}]
+    if rng.random() < 0.12:
+        # two instances whose pin names coincide after '.' -> '_' (finding C06-F1: used to be merged silently)
+        p = lib.add_flop(rng, gen_parent(rng, holes=0), inst="a.b", clk="clk")
+        p = lib.add_flop(rng, p, inst="a_b", clk="clk")
+        return {"parent": p, "ops": [{"op": "strip", "ign": rng.choice([None, None, "clk", ["d", "clk", "q"]])}], "kind": "strip-collide"}
     if rng.random() < 0.25:     # clash: a node that already has the name a pin would get
         inst = p["bbs"][0][0]
         p["nodes"].append([f"{inst}_{rng.choice(['d', 'q', 'clk'])}", "buf", True, [p["nodes"][0][0]]])
@@ -198,7 +204,7 @@ def scen_reject(rng):
 
 
 def generate(rng, tier):
-    n = 90 if tier == "quick" else 1400
+    n = 90 if tier == "quick" else 1000
     out = []
     for _ in range(n):
         r = rng.random()
@@ -321,7 +327,7 @@ def cstep(st):
 
 def to_coq(case, obs):
     steps = [s for s in obs["steps"] if "name" in s or "inst" in s or "ign" in s]
-    if not steps:
+    if not steps or any(len(lib.free_of(s.get("res") or s["post"])) > MAX_FREE for s in steps):
         return None
     return "CHist " + cl(cstep(s) for s in steps)
 
@@ -335,6 +341,8 @@ def nontrivial(case, obs):
 
 def classify(case, obs):
     out = ["scenario:" + case["kind"].split(":")[0]]
+    if any(len(lib.free_of(s.get("res") or s["post"])) > MAX_FREE for s in obs["steps"]):
+        out.append("skipped:more-than-%d-free-nodes" % MAX_FREE)
     if case["kind"].startswith("reject:"):
         out.append(case["kind"])
     for s in obs["steps"]:
@@ -369,6 +377,6 @@ LEVEL_TEXT = ("Theorems over the API model: for every parent, child, instance na
               "along name_ is consistent for strip_io(child), and every attached pair of nets is equal. fill_blackbox / strip_blackboxes / "
               "add_blackbox: see docs/C06.md for which clauses are proved and which are decided per recorded result by the Coq oracle.")
 LEVEL_NOTE = ("Trusted: Coq kernel + vm_compute, std++, the hand-written API model (tied to circuit.py by the per-step correspondence "
-              "of this check and of C07), Gen_types translator shapes, harness canonicalisation. Cyclic results are judged structurally only. "
-              "strip_blackboxes with two pins that collide after '.'->'_' (instances a.b / a_b) is outside the modelled domain.")
+              "of this check and of C07), Gen_types translator shapes, harness canonicalisation. Cyclic results are judged structurally only; "
+              "histories whose result has more than 9 free nodes are generated but not evaluated.")
 TECHNIQUE = "Coq proof (composition lemmas over the API model) + vm_compute correspondence and exhaustive-valuation oracle per recorded step"
